@@ -112,6 +112,9 @@ def scripts_crash(tier, rng, prefix):
     # a rotation that fails on the caller thread (stray file with the next chunk's name)
     bases += base_histories(rng, nb // 4, max_ops=22, worker_steps=True, faults=True, queries=(),
                             flush_prob=(2, 3), weights=dict(append=45, purge=6, truncate=4))
+    # histories with clean restarts (incl. restarts after failed syncs) before the crash
+    bases += base_histories(rng, nb // 4, max_ops=20, worker_steps=True, faults=True, restarts=True, queries=(),
+                            flush_prob=(2, 3), weights=dict(append=45, purge=6, truncate=4, restart=8))
     from props import blocked_rotation_scripts
     blocked = blocked_rotation_scripts([(f"x{i}", b) for i, b in enumerate(bases[: nb // 4])], rng, "t")
     bases += [[l for l in b if l not in ("stat", "dir")] for _, b in blocked]  # ends with flush 9997, widle
